@@ -23,6 +23,14 @@ def demo_targets():
             tg.append(["-p", f.split("/")[0], "--test", base])
         elif f.startswith("src/") and "seed" in base:
             tg.append(["--lib", base])
+    # test functions added to an existing test module of the crate: `fn seed_xyz` in added lines of src/ files
+    if not tg:
+        for blk in re.split(r"^diff --git ", d, flags=re.M):
+            if re.match(r"a/src/", blk):
+                for m in re.finditer(r"^\+\s*(?:async\s+)?fn (seed\w+)", blk, flags=re.M):
+                    t = ["--lib", m.group(1)]
+                    if t not in tg:
+                        tg.append(t)
     # test modules appended to existing source files: `mod seed_xyz {` in added lines
     for m in re.finditer(r"^\+\s*(?:pub(?:\(crate\))?\s+)?mod (seed\w+)", d, flags=re.M):
         t = ["--lib", m.group(1)]
